@@ -8,7 +8,8 @@ def units():
 
 
 def extra(tier, seed):
-    return [run_gen("core.lemma", ("C13",), c_core_geometry.gen_monotone_lemma, tier == "thorough")]
+    return [run_gen("core.lemma", ("C13",), c_core_geometry.gen_monotone_lemma, tier == "thorough"),
+            run_gen("core._get_line_start_charnos/against-the-parser", ("C13",), c_core_geometry.gen_line_table, tier == "thorough")]
 
 
 def standins(tier, seed):
